@@ -19,8 +19,8 @@ The Content-Type of a reply is application/json when the request accepts it, els
 CouchDB does).  Document ids are the percent-decoded path segment.
 
 Not implemented: attachments, design documents, views, _bulk_docs, _changes, replication,
-conflicting revision trees, ICU collation of _all_docs (plain code point order is used), the
-"illegal_docid" rule for ids starting with an underscore.
+conflicting revision trees, ICU collation of _all_docs (plain code point order is used).
+Document ids starting with an underscore are refused with 400 illegal_docid (as CouchDB does).
 
 Fault injection (per logical request, armed by the harness with `arm`): answer with a given
 status and a CouchDB-style JSON error body, answer 200 with a body that is not JSON, or drop the
@@ -59,6 +59,7 @@ class FakeCouchDB:
         self.plan = {}                     # logical request index -> fault
         self.n = 0                         # logical request counter since the last arm()
         self.drops = 0
+        self.fault_hits = 0                # arrivals answered by a fault since the last arm()
         self.log = []                      # (method, path, status or 'drop') since the last arm()
         self.httpd = None
         self.thread = None
@@ -93,6 +94,7 @@ class FakeCouchDB:
             self.plan = dict(plan or {})
             self.n = 0
             self.drops = 0
+            self.fault_hits = 0
             self.log = []
 
     def snapshot(self, db):
@@ -183,6 +185,8 @@ class _Handler(BaseHTTPRequestHandler):
         body = self.rfile.read(length) if length else b""
         with st.lock:
             fault = st.plan.get(st.n)
+            if fault:
+                st.fault_hits += 1
             if fault and fault[0] == "drop":
                 st.drops += 1
                 if st.drops >= 8:         # a client that keeps retrying: let the next one through
@@ -276,6 +280,9 @@ class _Handler(BaseHTTPRequestHandler):
             if len(revs) > 1:
                 return self._reply(400, {"error": "bad_request", "reason": "Document rev from request body and "
                                                                            "query string have different values"})
+            if docid.startswith("_") and not docid.startswith(("_design/", "_local/")):
+                return self._reply(400, {"error": "illegal_docid",
+                                         "reason": "Only reserved document ids may start with underscore."})
             content = {k: v for k, v in doc.items() if k not in ("_id", "_rev")}
             status, out = st.put_doc(db, docid, content, next(iter(revs), None))
             return self._reply(status, out, {"ETag": '"%s"' % out["rev"]} if out else None)
